@@ -25,6 +25,7 @@ from sqlite_dissect.constants import (
     LEFT_CHILD_POINTER_BYTE_LENGTH,
     LOGGER_NAME,
     MASTER_PAGE_HEX_ID,
+    MINIMUM_CELL_ALLOCATION_SIZE,
     NEXT_FREEBLOCK_OFFSET_LENGTH,
     OVERFLOW_HEADER_LENGTH,
     PAGE_FRAGMENT_LIMIT,
@@ -903,7 +904,11 @@ class BTreePage(Page):
                 )
                 self.calculated_cell_total_byte_size += overflow_adjusted_page_size
             else:
-                self.calculated_cell_total_byte_size += cell_instance.byte_size
+                # SQLite never gives a cell fewer than four bytes of the page (a freed cell must be able to hold
+                # a freeblock header): a three byte index cell is followed by one byte of padding
+                self.calculated_cell_total_byte_size += max(
+                    cell_instance.byte_size, MINIMUM_CELL_ALLOCATION_SIZE
+                )
 
         if len(self.cells) != self.header.number_of_cells_on_page:
             log_message = (
@@ -1001,6 +1006,10 @@ class BTreePage(Page):
                 self.calculated_fragment_total_byte_size += fragment.byte_size
                 fragment_index += 1
             last_accounted_for_offset = cell.end_offset
+            if not isinstance(cell, Freeblock):
+                last_accounted_for_offset = max(
+                    cell.end_offset, cell.start_offset + MINIMUM_CELL_ALLOCATION_SIZE
+                )
 
         # The bytes between the last cell or freeblock and the end of the page are a fragment as well
         if aggregated_cells and last_accounted_for_offset < self.size:
